@@ -6,6 +6,7 @@ PROP = dict(
     required_theorems=["C10_noDone_invariant", "C10_runN_add", "C10_runN_add_outOfSteps", "C10_runSeq_eq_sum",
                        "C10_slicing_invariant", "C10_host_delay_invariant", "C10_host_delay_single",
                        "C10_output_schedule_invariant_partial", "C10_schedule_is_reference_partial",
+                       "C10_finished_runs_agree_partial",
                        "C10_task_print_race_counterexample", "C10_channel_merge_race_counterexample"],
     harness_bin="c10",
     # the compared observable (the complete interleaving of executed instructions, blocked reads, run-queue
